@@ -38,14 +38,14 @@ RULE = ('case = one search-space description. Exhaustive part (same for every '
         'depth <= 2) whose reference size is <= max_dnas (quick 6, thorough 64), '
         'plus all 30 single flat choices whatever their size (<= 64 members), plus '
         '12 fixed descriptions with float / custom leaves and the constant root '
-        'space, plus the fixed float family (every scale None / linear / log / '
-        'rlog x groups of <= 3 ranges of one class: pinned min == max on awkward '
-        'doubles, 1-3 ulps wide, ordinary, huge, signed, and hi - lo not '
-        'representable; alone, next to a choice or in a conditional sub-space); '
-        'partitioned over the '
+        'space; partitioned over the '
         'shards by index; followed by `random` seeded larger descriptions per '
         'shard (floats of one random scale and range class, custom points, '
-        'depth <= 3). For each: full iteration vs '
+        'depth <= 3) and by the fixed float family (every scale None / linear / '
+        'log / rlog x groups of <= 3 ranges of one class: pinned min == max on '
+        'awkward doubles, 1-3 ulps wide, ordinary, huge, signed, and hi - lo not '
+        'representable; alone, next to a choice or in a conditional sub-space; '
+        'partitioned likewise). For each: full iteration vs '
         'the reference enumeration (set, order, count, strict increase, end), '
         'space_size, next_dna from rebuilt DNAs, first_dna + DNA.iter_dna, '
         'Sweeping as a history of setup() calls on ONE generator object (the '
@@ -69,7 +69,8 @@ RULE = ('case = one search-space description. Exhaustive part (same for every '
 REQUIRED_COUNTERS = ['iter_full', 'size_checks', 'lt_checks', 'next_checks',
                      'member_validate', 'member_bind', 'nonmember_validate',
                      'nonmember_bind', 'random_dna_checks', 'sweeping_checks',
-                     'sweeping_full']
+                     'sweeping_full', 'sweeping_reuse_checks',
+                     'random_dna_extreme_rng', 'random_generator_reused']
 ASSUMPTIONS = [
     'the reference enumerates depth first in decision order; membership = arity, index range, distinct, sorted, conditional sub-space, float range, str genome',
     'a DNA-shaped input is judged on the (value, children) shape that pg.DNA reports after construction, so inputs that normalise to a member count as members; corrupted trees that normalise to another non-member are keyed reshaped:tree',
@@ -292,14 +293,13 @@ class ExtremeRandom(pyrandom.Random):
 def family(ctx):
   """Every description of gen/spaces.exhaustive() with <= max_dnas members,
   plus every single flat choice (k <= 3, n <= 4, all modes) of any size, plus
-  the fixed leaf family and the fixed float family."""
+  the fixed leaf family."""
   key = ctx.params['max_dnas']
   if key not in _FAMILY:
     sized = [(d, G.size(d)) for d in S.exhaustive(10 ** 9)]
     fam = [d for d, n in sized if n <= key]          # == S.exhaustive(key)
     fam += [d for d, n in sized if n > key and is_flat_single(d)]
     fam += leaf_family()
-    fam += float_family()
     _FAMILY[key] = fam
   return _FAMILY[key]
 
@@ -308,14 +308,30 @@ def setup(ctx):
   fam = family(ctx)
   ctx.notes['family_size'] = len(fam)
   ctx.notes['family_members'] = sum(G.size(d) or 0 for d in fam)
+  ctx.notes['float_family_size'] = len(floats())
 
 
 def my_part(ctx):
   return family(ctx)[ctx.shard::ctx.nshards]
 
 
+def floats():
+  if not _FLOATS:
+    _FLOATS.extend(float_family())
+  return _FLOATS
+
+
+_FLOATS = []
+
+
+def my_floats(ctx):
+  """The fixed float family comes after the random descriptions (so that
+  those keep their case index, hence their seed)."""
+  return floats()[ctx.shard::ctx.nshards]
+
+
 def cases(ctx):
-  n = len(my_part(ctx)) + int(ctx.params['random'])
+  n = len(my_part(ctx)) + int(ctx.params['random']) + len(my_floats(ctx))
   cap = ctx.params.get('cases')          # development only (PGVERIF_P_cases)
   return min(n, int(cap)) if cap else n
 
@@ -962,9 +978,14 @@ def run_case(ctx, i):
   rng = ctx.rng
   c = ctx.counters
   part = my_part(ctx)
+  nrandom = int(ctx.params['random'])
   if i < len(part):
     desc = part[i]
     c['exhaustive_cases'] += 1
+  elif i >= len(part) + nrandom:
+    desc = my_floats(ctx)[i - len(part) - nrandom]
+    c['exhaustive_cases'] += 1
+    c['float_family_cases'] += 1
   else:
     c['random_cases'] += 1
     fl = rng.choice([0.0, 0.0, 0.15, 0.3])
